@@ -366,9 +366,10 @@ fn write_object_file(path: &Path, bytes: &[u8]) -> Result<()> {
         return file.write_all(bytes).into_diagnostic();
     }
 
-    // Write a temporary file next to the destination, then move it over the destination
+    // Write a temporary file next to the destination, then move it over the destination. The
+    // temporary file belongs to this process alone: two compiles at once must not share one
     let mut tmp_name = path.as_os_str().to_owned();
-    tmp_name.push(".tmp");
+    tmp_name.push(format!(".{}.tmp", std::process::id()));
     let tmp_path = PathBuf::from(tmp_name);
 
     let result = File::create(&tmp_path)
